@@ -693,9 +693,23 @@ func (s *c13) ruleM5() {
 	c := s.c
 	fromOutFilename := func(v ssa.Value) bool {
 		seen := map[ssa.Value]bool{}
+		memo := map[ssa.Value]bool{}
+		var rec0 func(v ssa.Value, d int) bool
 		var rec func(v ssa.Value, d int) bool
 		rec = func(v ssa.Value, d int) bool {
-			if v == nil || seen[v] || d > 8 {
+			// a value reached a second time (the same local handed to two helpers) has the verdict
+			// it had the first time; only a cycle in progress counts as "no"
+			if r, done := memo[v]; done {
+				return r
+			}
+			r := rec0(v, d)
+			if v != nil {
+				memo[v] = r
+			}
+			return r
+		}
+		rec0 = func(v ssa.Value, d int) bool {
+			if v == nil || seen[v] || d > 10 {
 				return false
 			}
 			seen[v] = true
@@ -1236,6 +1250,32 @@ func (s *c13) ruleM8() {
 				}
 			case *ssa.BinOp:
 				return rec(x.X, d+1) || rec(x.Y, d+1)
+			case *ssa.Parameter:
+				// the destination handed to a helper: what every caller passes
+				hf := x.Parent()
+				idx := -1
+				for i, prm := range hf.Params {
+					if prm == x {
+						idx = i
+					}
+				}
+				cnt, all := 0, true
+				for _, sites := range c.P.Callers(hf) {
+					for _, site := range sites {
+						if idx < 0 || idx >= len(site.Common().Args) {
+							all = false
+							continue
+						}
+						cnt++
+						seen2 := seen
+						_ = seen2
+						delete(seen, site.Common().Args[idx])
+						if !rec(site.Common().Args[idx], d+1) {
+							all = false
+						}
+					}
+				}
+				return all && cnt > 0
 			}
 			return false
 		}
